@@ -24,7 +24,7 @@ def load_known():
 
 def known_match(known, prop, key):
     for k in known.get('open', []):
-        if k['property'] == prop and fnmatch.fnmatch(key, k['match']):
+        if k['property'] == prop and re.fullmatch('.*'.join(re.escape(p_) for p_ in k['match'].split('*')), key, re.S):
             return k
     return None
 
